@@ -18,7 +18,8 @@ import Mathlib.Data.Finsupp.Basic
 import Mathlib.Data.List.Sort
 import Mathlib.Data.List.Dedup
 import Mathlib.Data.Real.Basic
-import Mathlib.Data.Real.Archimedean
+import Mathlib.Algebra.Order.Archimedean.Real.Basic
+import Mathlib.Algebra.BigOperators.Fin
 import Mathlib.Data.Nat.Size
 import Mathlib.Algebra.Order.Floor.Semiring
 import Mathlib.Tactic.Ring
@@ -698,7 +699,7 @@ theorem forall_mem_srt_iff {P : α → Prop} (l : List α) :
 
 /-- `srt l` is the unique sorted permutation of `l`. -/
 theorem srt_unique {l l' : List α} (hs : l'.Pairwise (· ≤ ·)) (hp : l'.Perm l) : l' = srt l :=
-  List.Perm.eq_of_pairwise (fun a b _ _ hab hba => le_antisymm hab hba) hs (srt_sorted l)
+  List.Perm.eq_of_pairwise (fun _ _ _ _ hab hba => le_antisymm hab hba) hs (srt_sorted l)
     (hp.trans (srt_perm l).symm)
 
 /-- the canonical keys are `srt` of a duplicate-free list -/
@@ -761,19 +762,19 @@ theorem mem_filter_iff (p : α → Bool) (k : List α) (i : α) :
 theorem memset_filter [DecidableEq α] (p : α → Bool) (k : List α) :
     (k.filter p).toFinset = k.toFinset.filter (fun i => p i = true) := by
   ext i
-  simp [List.mem_filter]
+  simp
 
 /-- `memset (fin k S) = memset k ∩ S` for a finite set `S` -/
 theorem memset_filter_mem [DecidableEq α] (S : Finset α) (k : List α) :
     (k.filter (fun i => decide (i ∈ S))).toFinset = k.toFinset ∩ S := by
   ext i
-  simp [List.mem_filter]
+  simp
 
 /-- `memset (fout k S) = memset k \ S` for a finite set `S` -/
 theorem memset_filter_notMem [DecidableEq α] (S : Finset α) (k : List α) :
     (k.filter (fun i => decide (i ∉ S))).toFinset = k.toFinset \ S := by
   ext i
-  simp [List.mem_filter]
+  simp
 
 theorem forall_mem_filter {P : α → Prop} (p : α → Bool) {k : List α} (h : ∀ i ∈ k, P i) :
     ∀ i ∈ k.filter p, P i :=
@@ -956,7 +957,8 @@ theorem slack_log_attained_of_lt (b s : ℕ) (hs : s < 2 ^ b) :
         = slack true a' n := by
       unfold slack bitval
       refine Finset.sum_congr rfl (fun i hi => ?_)
-      rw [if_pos (Finset.mem_range.mp hi)]
+      have hi' : i < n := Finset.mem_range.mp hi
+      simp only [if_pos hi']
     rw [hagree, ha']
     have hdecomp := Nat.mod_add_div s (2 ^ n)
     simp only [lt_irrefl, if_false, if_true, decide_eq_true_eq]
@@ -965,7 +967,9 @@ theorem slack_log_attained_of_lt (b s : ℕ) (hs : s < 2 ^ b) :
       rw [h1, mul_one] at hdecomp
       exact hdecomp
     · rw [if_neg h1]
-      have h0 : s / 2 ^ n = 0 := by omega
+      have h0 : s / 2 ^ n = 0 := by
+        generalize s / 2 ^ n = q at hdiv h1
+        omega
       rw [h0, mul_zero] at hdecomp
       exact hdecomp
 
@@ -1058,8 +1062,8 @@ theorem slack_attained_fin (log : Bool) (n s : ℕ) (hs : s ≤ cap log n) :
   refine ⟨fun i => a i, ?_⟩
   rw [← ha]
   unfold slack bitval
-  exact Fin.sum_univ_eq_sum_range
-    (fun i => (if log then 2 ^ i else 1) * (if a i then 1 else 0)) n
+  exact (Finset.sum_range
+    (fun i => (if log then 2 ^ i else 1) * (if a i then 1 else 0))).symm
 
 /-! ### L8 : `num_bits v log = bit_length ⌈v⌉ (log) or ⌈v⌉ (unary)` -/
 
@@ -1129,6 +1133,16 @@ example : ssq [1, 1] = ([] : List ℕ) :=
   (ssq_unique (l := []) (by simp) (by simp) (by
     intro i; simp only [List.not_mem_nil, false_iff, Nat.not_odd_iff_even]
     by_cases h : i = 1 <;> simp [List.count_cons, h])).symm
+
+example (m : ℕ → ℕ) (a x : ℕ → ℝ) (k : List ℕ) (h : ∀ i ∈ k, x i = a (m i)) :
+    mono a (srt (k.map m)) = mono x k := by
+  rw [mono_srt, mono_relabel m a x k h]
+
+example (x : ℕ → ℝ) (S : Finset ℕ) (k : List ℕ) :
+    mono x k = mono x (k.filter (fun i => decide (i ∉ S)))
+      * mono x (k.filter (fun i => decide (i ∈ S))) := mono_split x (· ∈ S) k
+
+example : ∃ a : ℕ → Bool, slack true a 3 = 5 := slack_log_attained 3 5 (by norm_num)
 
 end Inst
 
